@@ -3,7 +3,7 @@
    nan_fill = np.empty followed by arr[:] = nan) and the track layouts of Blocks.v.
    All statements are for frame lists of ANY length and any number of runs. *)
 From Model Require Import Base Fmt Segments Blocks.
-From Proofs Require Import BaseFacts FmtFacts SegFacts.
+From Proofs Require Import BaseFacts FmtFacts SegFacts RunsUnique.
 Open Scope Z_scope.
 
 (* the runs written: non-empty, inside the frame range, made of present frames only,
@@ -26,6 +26,44 @@ Proof.
   intros fs sc H. pose proof (chunks_content fs 0 sc H) as E. now rewrite Z.sub_0_r in E.
 Qed.
 Print Assumptions C05_runs_content.
+
+(* the listed conditions leave nothing free: ANY table of (start, length) pairs that is non-empty
+   run by run, increasing and never touching, inside the frame range and covering exactly the
+   present frames IS the table the library writes *)
+Theorem C05_runs_canonical : forall fs (rs : list (Z * Z)),
+  Forall iv_pos rs -> iv_sep rs ->
+  (forall i, iv_cov rs i -> 0 <= i < zlength fs) ->
+  (forall i, 0 <= i < zlength fs -> (present (nth (Z.to_nat i) fs gap) = true <-> iv_cov rs i)) ->
+  rs = map iv_of (chunks fs 0).
+Proof. exact runs_canonical. Qed.
+Print Assumptions C05_runs_canonical.
+
+(* non-vacuity of C05_runs_canonical: the table [(0,1); (3,2)] meets all four hypotheses for
+   present, gap, gap, present, present *)
+Example C05_canonical_example :
+  let p := VL [VI 1065353216; VI 0; VI 1073741824] in
+  let fs := [p; gap; gap; p; p] in
+  let rs := [(0, 1); (3, 2)] in
+  Forall iv_pos rs /\ iv_sep rs /\ (forall i, iv_cov rs i -> 0 <= i < zlength fs) /\
+  (forall i, 0 <= i < zlength fs -> (present (nth (Z.to_nat i) fs gap) = true <-> iv_cov rs i)) /\
+  map iv_of (chunks fs 0) = rs.
+Proof.
+  cbv zeta. split; [|split; [|split; [|split]]].
+  - repeat constructor.
+  - cbn [iv_sep fst snd]. split; [lia|exact I].
+  - intros i (r & [<-|[<-|[]]] & Hi); cbn [fst snd] in Hi; change (zlength _) with 5; lia.
+  - intros i H. change (zlength _) with 5 in H. split.
+    + intros Hp.
+      assert (i = 0 \/ i = 1 \/ i = 2 \/ i = 3 \/ i = 4) as [->|[->|[->|[->| ->]]]] by lia;
+        try (vm_compute in Hp; discriminate).
+      * exists (0, 1). cbn [In fst snd]. split; [tauto|lia].
+      * exists (3, 2). cbn [In fst snd]. split; [tauto|lia].
+      * exists (3, 2). cbn [In fst snd]. split; [tauto|lia].
+    + intros (r & [<-|[<-|[]]] & Hi); cbn [fst snd] in Hi.
+      * replace i with 0 by lia. reflexivity.
+      * assert (i = 3 \/ i = 4) as [->| ->] by lia; reflexivity.
+  - reflexivity.
+Qed.
 
 (* the segment table that goes into the bytes IS that list of runs *)
 Theorem C05_table_written : forall label fs,
